@@ -59,6 +59,8 @@ func (e *Engine) GroundObligations(prop, tier string) ([]*Obligation, []string) 
 		g.actionTable()
 	case "C01", "C02":
 		g.jumpTests()
+	case "C13":
+		g.globalsImmutable()
 	}
 	return g.obls, g.notes
 }
@@ -670,4 +672,34 @@ func (g *groundCtx) actionTable() {
 		low[strings.ToLower(o)] = true
 	}
 	g.add("seccomp.Operations", "seccomp.Operations#ground.distinct_lower", "the operation names stay pairwise distinct under case folding", len(low) == len(ops), "collision", opos)
+}
+
+// ---- C13: package-level data read on the compile / lookup / text paths is never written after init ----
+
+func (g *groundCtx) globalsImmutable() {
+	type gv struct{ pkg, name string }
+	vars := []gv{{"seccomp", "nativeEndian"}, {"seccomp", "actionNames"}, {"seccomp", "filterFlagNames"}, {"seccomp", "filterFlags"}, {"seccomp", "Operations"},
+		{"arch", "arches"}, {"arch", "ARM"}, {"arch", "AARCH64"}, {"arch", "I386"}, {"arch", "X32"}, {"arch", "X86_64"},
+		{"arch", "syscallsARM"}, {"arch", "syscallsAARCH64"}, {"arch", "syscalls386"}, {"arch", "syscallsX32"}, {"arch", "syscallsX86_64"}, {"arch", "auditArchNames"}}
+	for _, v := range vars {
+		p := g.e.pkgNamed(v.pkg)
+		if p == nil {
+			continue
+		}
+		obj, ok := p.Types.Scope().Lookup(v.name).(*types.Var)
+		fn := v.pkg + "." + v.name
+		if !ok {
+			g.add(fn, fn+"#ground.immutable", "package-level variable exists", false, "not found", token.NoPos)
+			continue
+		}
+		g.e.isMutableGlobal(obj) // fills the table
+		var bad []string
+		for _, w := range g.e.writtenGlobals[obj] {
+			if strings.HasSuffix(w, " in init") {
+				continue // writes in init() happen before any use (Go memory model: package initialisation)
+			}
+			bad = append(bad, w)
+		}
+		g.add(fn, fn+"#ground.immutable", v.pkg+"."+v.name+" is never assigned, mutated or address-taken outside init() in the module's non-test files (read-only shared data: no race, no history dependence)", len(bad) == 0, strings.Join(bad, "; "), obj.Pos())
+	}
 }
